@@ -310,7 +310,7 @@ Qed.
 End FilesP.
 
 (** ** the font-level theorems over [all_files] *)
-Require Import Norad.Proofs.FontRealP.
+Require Import Norad.Proofs.FontRealP Norad.Proofs.FontRealInfoP.
 
 Section AllFiles.
 Variable pf : str -> option fl.
@@ -395,3 +395,57 @@ Example num_examples :
   num_pv (FFin false 27 (-1)) = PReal (FFin false 27 (-1)) /\ num_pv (FFin false 1 31) = PReal (FFin false 1 31) /\
   pv_num (PInt (-40)) = Some (FFin true 5 3).
 Proof. vm_compute. repeat split; reflexivity. Qed.
+
+(** ** the whole domain is inhabited: a font with a non-default font info (two guidelines, one with
+    a lib), a font lib with nested dictionaries, groups, and a default layer with a layer lib and a
+    glyph carrying code points, a note, an anchor, a component, a contour and libs — valid whatever
+    the library functions are *)
+Definition sample_font pf ff ff3 fi fh to_bits of_bits lw
+  : font (real_sig pf ff ff3 fi fh (all_files pf ff ff3 fi to_bits of_bits lw)) :=
+  Build_font (real_sig pf ff ff3 fi fh (all_files pf ff ff3 fi to_bits of_bits lw))
+    {| m_creator := None; m_version := 3; m_minor := 0 |}
+    (Build_finfo rinfo rline dict (fst si_real_sample)
+       (Some [ Build_guideline rline dict FI.LVert (Some [103; 49]) (Some [([107], PInt 7)]);
+               Build_guideline rline dict (FI.LAngle (FI.FFin false 45 0)) None None ]))
+    lib_sample groups_sample [] []
+    [ Build_layer color dict glyph DEFAULT_LAYER_NAME GLYPHS None lib_sample
+        [ ([97], [97; 46; 103; 108; 105; 102], g_real_sample) ] ]
+    [] [].
+
+Lemma lib_sample_dict : forall (wk : str -> Prop), (forall k, wk k) ->
+  forall k v, alookup k lib_sample = Some v -> wk k /\ wf_pv_real v.
+Proof. intros wk Hk k v H. split; [apply Hk|]. exact (lib_sample_wf k v H). Qed.
+
+Theorem sample_font_valid : forall pf ff ff3 fi fh to_bits of_bits lw,
+  font_valid _ (sample_font pf ff ff3 fi fh to_bits of_bits lw).
+Proof.
+  intros pf ff ff3 fi fh tb ob lw. unfold font_valid, sample_font. cbn [f_meta f_info f_lib f_groups f_kerning f_layers m_version].
+  split; [reflexivity|].
+  split. { split; [simpl; auto|reflexivity]. }
+  split. { vm_compute. reflexivity. }
+  split. { exact si_real_sample_wf. }
+  split. { unfold guides_of. cbn [i_guides]. constructor; [|constructor; [|constructor]].
+           - split; cbn [g_lib g_id]; [|intros; exact I]. intros l E. inversion E; subst l. split; [|eauto].
+             intros k v Hk. split; [exact I|]. simpl in Hk. destruct (str_eqb k [107]); [|discriminate].
+             inversion Hk; subst v. reflexivity.
+           - split; cbn [g_lib g_id]; [discriminate|intros; exact I]. }
+  split. { unfold guides_of. cbn. constructor; [intros []|constructor]. }
+  split. { intros k v Hk. exact (lib_sample_dict (fun _ => True) (fun _ => I) k v Hk). }
+  split. { vm_compute. reflexivity. }
+  split. { vm_compute. reflexivity. }
+  split. { exact groups_sample_wf. }
+  split. { split; [exact I|constructor]. }
+  unfold layers_ok. cbn [l_dir l_name map lc_of].
+  split; [split; [reflexivity|constructor]|].
+  split; [constructor; [intros []|constructor]|].
+  split.
+  { constructor; [|constructor]. unfold layer_ok. cbn [l_lib l_color l_glyphs contents_of map fst snd].
+    split. { intros k v Hk. exact (lib_sample_dict (fun _ => True) (fun _ => I) k v Hk). }
+    split; [discriminate|].
+    split. { split; [simpl; split; [intros k []|exact I]|constructor; [vm_compute; reflexivity|constructor]]. }
+    split; [constructor; [intros []|constructor]|].
+    constructor; [|constructor]. split; [apply real_sample_wf|reflexivity]. }
+  split. { constructor; [vm_compute; reflexivity|constructor]. }
+  split; [constructor; [intros []|constructor]|].
+  constructor; [reflexivity|constructor].
+Qed.
